@@ -97,6 +97,10 @@ class Aggregation(Operator.Unary):
                 unary_implicit_promotion(comp.data_type, cls.type_to_check)
                 if cls.return_type is not None:
                     comp.data_type = cls.return_type
+        # min/max accept an operand without Measures (the result is the set of groups), but
+        # with no grouping Identifier left either the result would have no Components at all
+        if cls.op != COUNT and len(result_components) == 0:
+            raise SemanticError("1-1-1-8", op=cls.op, name=operand.name)
         if cls.op == COUNT:
             for measure_name in operand.get_measures_names():
                 result_components.pop(measure_name)
